@@ -367,6 +367,14 @@ class Exec:
                     raise Unsupported("downcast to %s of %r" % (pr[1], v))
                 return v
             raise Unsupported("downcast of undecided %r (discriminant must be read first)" % (v,))
+        if pr[0] == "range":
+            if isinstance(v, PyVec) and 0 <= pr[1] <= pr[2] <= len(v.items):
+                return PyVec(v.items[pr[1]:pr[2]])
+            raise Unsupported("sub-slice %d..%d of %r" % (pr[1], pr[2], type(v).__name__))
+        if pr[0] == "elem":
+            if isinstance(v, PyVec) and pr[1] < len(v.items):
+                return v.items[pr[1]]
+            raise Unsupported("element %d of %r" % (pr[1], type(v).__name__))
         if pr[0] == "index":
             if isinstance(v, PyVec):
                 iv = self.operand(st, "copy " + pr[1])[0] if re.match(r"^_\d+$", pr[1]) else None
@@ -435,6 +443,29 @@ class Exec:
             raise Unsupported("update field of %r" % (v,))
         if pr[0] == "downcast":
             return self._updated(st, v, projs[1:], val)
+        if pr[0] == "range" and isinstance(v, PyVec):
+            s0, e0 = pr[1], pr[2]
+            cur = PyVec(v.items[s0:e0])
+            new = self._updated(st, cur, projs[1:], val)
+            if not isinstance(new, PyVec) or len(new.items) != e0 - s0:
+                raise Unsupported("sub-slice update changes the length")
+            items = list(v.items)
+            items[s0:e0] = new.items
+            return PyVec(items)
+        if pr[0] == "elem" and isinstance(v, PyVec):
+            items = list(v.items)
+            items[pr[1]] = self._updated(st, items[pr[1]], projs[1:], val)
+            return PyVec(items)
+        if pr[0] == "index" and isinstance(v, PyVec):
+            iv = z3.simplify(self.operand(st, "copy " + pr[1])[0])
+            if not z3.is_bv_value(iv):
+                raise Unsupported("write at a symbolic index")
+            k = iv.as_long()
+            if k >= len(v.items):
+                raise Unsupported("index %d out of range on this path" % k)
+            items = list(v.items)
+            items[k] = self._updated(st, items[k], projs[1:], val)
+            return PyVec(items)
         raise Unsupported("update through %r" % (pr,))
 
     # ---- operands
@@ -504,9 +535,9 @@ class Exec:
                     return PyVec([bv(x, 8) for x in pv[1]]), None
                 if pv[0] == "named":
                     return self.const(pv[1], st)
-        if self.mf is not None and re.match(r"^[A-Za-z_][\w:]*$", c):
+        if self.mf is not None and re.match(r"^[A-Za-z_][\w:{}#<>', ]*$", c):
             # a named numeric constant of the crate: evaluate its const item from the MIR dump
-            segs = c.split("::")
+            segs = re.sub(r"::<[^<>]*>", "", c).split("::")
             for name in ("::".join(segs[-2:]), segs[-1]):
                 try:
                     val, ty = self.mf.const_value(re.escape(name))
@@ -516,6 +547,9 @@ class Exec:
                         return z3.FPVal(val, z3.Float64()), "f64"
                 except Exception:  # noqa: BLE001
                     continue
+            raw = self.mf.const_bytes(re.escape(segs[-1]))
+            if raw is not None:
+                return PyVec([bv(x, 8) for x in raw]), None
         return Opaque("const " + c[:80]), None
 
     # ---- rvalues
@@ -553,7 +587,7 @@ class Exec:
             if isinstance(v, SymEnum):
                 return ("fork-enum", m.group(1), v)
             raise Unsupported("discriminant of %r" % (v,))
-        m = re.match(r"^&(?:raw (?:const|mut) )?(?:mut )?(?:fake shallow )?(.*)$", rhs)
+        m = re.match(r"^&(?:raw (?:const|mut) )?(?:mut )?(?:fake shallow |\(fake\) )?(.*)$", rhs)
         if m and not rhs.startswith("&&"):
             root, projs = self.parse_place(m.group(1))
             root = self.q(st, root)
@@ -936,6 +970,10 @@ class Exec:
             alts = model(self, st, argv, dst, callee)
             if alts is not None:
                 break
+        if isinstance(alts, str) and alts.startswith("PANIC:"):
+            st.events.append("panic:" + alts[6:66])
+            self.end("panic", st, None, alts[6:])
+            return
         if alts is None:
             if self.try_higher_order(st, dst, callee, argv, nxt):
                 return
